@@ -272,13 +272,16 @@ func updateIncremental(kc *base.KnowledgeContext, rb *builder.RuleBuilder) {
 		newSortRules[sk] = sv
 	}
 
+	//the index of the container under construction; the published one is never edited
+	sortRulesIndexMap := rb.Kc.SortRulesIndexMap
+
 	//kc store the new rules
 	for k, v := range kc.RuleEntities {
 
 		if vm, ok := newRuleEntities[k]; ok {
 			//repalce update
 			//search
-			index := rb.Kc.SortRulesIndexMap[v.RuleName]
+			index := sortRulesIndexMap[v.RuleName]
 			if v.Salience == vm.Salience {
 				//replace
 				newSortRules[index] = v
@@ -300,7 +303,7 @@ func updateIncremental(kc *base.KnowledgeContext, rb *builder.RuleBuilder) {
 				for k, v := range newSortRules {
 					indexMap[v.RuleName] = k
 				}
-				rb.Kc.SortRulesIndexMap = indexMap
+				sortRulesIndexMap = indexMap
 			}
 
 			newRuleEntities[k] = v
@@ -322,14 +325,18 @@ func updateIncremental(kc *base.KnowledgeContext, rb *builder.RuleBuilder) {
 			for k, v := range newSortRules {
 				indexMap[v.RuleName] = k
 			}
-			rb.Kc.SortRulesIndexMap = indexMap
+			sortRulesIndexMap = indexMap
 
 			newRuleEntities[k] = v
 		}
 	}
 
-	rb.Kc.RuleEntities = newRuleEntities
-	rb.Kc.SortRules = newSortRules
+	//copy on write: executions that hold the old container keep a consistent rule set
+	rb.Kc = &base.KnowledgeContext{
+		RuleEntities:      newRuleEntities,
+		SortRules:         newSortRules,
+		SortRulesIndexMap: sortRulesIndexMap,
+	}
 }
 
 //sync method
@@ -506,6 +513,16 @@ func (gp *GenginePool) GetRulesNumber() int {
 	return len(gp.ruleBuilder.Kc.RuleEntities)
 }
 
+// the rule container an execution uses is read once, under the update lock, into a rule builder
+// private to the request, so that an update landing while the execution runs (between two
+// stages, or triggered by one of its own rules) cannot change the rules it sees
+func (gp *GenginePool) snapshotRuleBuilder(tag int64) *builder.RuleBuilder {
+	gp.updateLock.Lock()
+	defer gp.updateLock.Unlock()
+	src := gp.rbSlice[tag]
+	return &builder.RuleBuilder{Kc: src.Kc, Dc: src.Dc}
+}
+
 func (gp *GenginePool) prepare(reqName string, req interface{}, respName string, resp interface{}) (*gengineWrapper, error) {
 	//get gengine resource
 	gw, e := gp.getGengine()
@@ -513,7 +530,7 @@ func (gp *GenginePool) prepare(reqName string, req interface{}, respName string,
 		return nil, e
 	}
 
-	gw.rulebuilder = gp.rbSlice[gw.tag]
+	gw.rulebuilder = gp.snapshotRuleBuilder(gw.tag)
 
 	if reqName != "" && req != nil {
 		gw.rulebuilder.Dc.Add(reqName, req)
@@ -532,7 +549,7 @@ func (gp *GenginePool) prepareWithMultiInput(data map[string]interface{}) (*geng
 		return nil, e
 	}
 
-	gw.rulebuilder = gp.rbSlice[gw.tag]
+	gw.rulebuilder = gp.snapshotRuleBuilder(gw.tag)
 
 	for k, v := range data {
 		//user should not inject "" string or nil value
